@@ -122,7 +122,8 @@ pub fn check(v: &View) -> Vec<Violation> {
         if h.exit.is_none_or(|x| x > o.end.unwrap()) {
             out.push(violation(P, "reply-before-handler-finished", &sig, format!("call {} returned Ok at {} but its handler had not finished (exit {:?})", id, o.end.unwrap(), h.exit)));
         }
-        if h.inst != r.inst || Some(h.aidx) != o.target && o.target.is_some() {
+        // (addresses obtained from the registry carry the default actor index as a placeholder)
+        if h.inst != r.inst || (Some(h.aidx) != o.target && o.target.is_some_and(|t| t < AIDX_SVC_A)) {
             out.push(violation(P, "reply-from-wrong-actor", &sig, format!("call {} to actor {:?} was answered by instance {} of actor {}", id, o.target, r.inst, r.aidx)));
         }
         if let Some(prev) = invocations.insert((r.inst, r.invocation), *id) {
